@@ -104,7 +104,40 @@ def judge_nested(case, col):
     col.case(rec, nontrivial=0 < k and 0 < k2, classes=("nested", "fired_inside", "hyp", "warm"))
 
 
+def judge_cold_init(case, col):
+    A, B, k = case["A"], case["B"], case["k"]
+    z = zygote()
+    ks, ncold, a1, b1 = z.call("checks.c16", "cold_probe", (A, B, "profile", -1))
+    a2, b2 = z.call("checks.c16", "cold_probe", (A, B, "serial_ba", -1))
+    fired, where, ta, tb, ta2, tb2 = z.call("checks.c16", "cold_probe", (A, B, "trial", k))
+    if fired:
+        for kind, got, want in (("A_differs_under_cold_preemption", ta, (a1, a2)), ("B_differs_inside_cold_A", tb, (b1[0], b2[0])),
+                                ("A_differs_after_cold_interleaving", ta2, (a1, a2)), ("B_differs_after_cold_interleaving", tb2[0], (b1[0], b2[0])),
+                                ("later_calls_differ_after_cold_interleaving", tb2[1], (b1[1], b2[1]))):
+            if got not in want:
+                raise Violation(kind, case, observed=_short(got), expected=_short(want[0]), note=f"A preempted at cold-only line {where}")
+    col.case(case, nontrivial=bool(fired), classes=("cold_init",))
+
+
+def judge_cold_threads(case, col):
+    z = zygote()
+    ref = z.call("checks.c16", "cold_threads", (0, 0))
+    ref1 = z.call("checks.c16", "cold_threads", (0, 1))
+    n, variant = case["cold_threads"]
+    for _ in range(20):
+        got = z.call("checks.c16", "cold_threads", (n, variant))
+        for call, results in got.items():
+            want = ref.get(call) or ref1.get(call)
+            if want is not None and any(r not in want for r in results):
+                raise Violation("differs_under_cold_start_real_threads", case, observed="a threaded cold-start walk returned a value the single-threaded walk never returns", expected="same values")
+    col.case(case, nontrivial=True, classes=("cold_start_real_threads",))
+
+
 def judge(case, col):
+    if "cold_threads" in case:
+        return judge_cold_threads(case, col)
+    if case.get("cold_init"):
+        return judge_cold_init(case, col)
     if case.get("nested") or "C" in case:
         if "u" not in case:
             case = dict(case, u=None)
@@ -302,6 +335,144 @@ def stage_shared_slots(ctx):
         ctx.col.notes.append({"shared_slot_pairs": [p[2] for p in pairs][:6]})
 
 
+def cold_probe(payload):
+    """Runs in a fresh fork of the pristine zygote. payload = (A, B, mode, k)
+    'profile': trace A cold, trace A again warm -> (indices of line events that only the cold run has, resA, resB after)
+    'serial_ba': B then A                       -> (resA, resB)
+    'trial': A preempted at line event k by B, then A and B once more (latent damage) -> (fired, where, ta, tb, ta2, tb2)"""
+    A, B, mode, k = payload
+    if mode == "profile":
+        cold, ra = sched.trace_lines(_mk(A))
+        warm, _ = sched.trace_lines(_mk(A))
+        warmset = set(warm)
+        ks = [i for i, ln in enumerate(cold) if ln not in warmset]
+        rb = sched._safe(_mk(B))
+        return (ks, len(cold), ra, (rb, _sweep_digest()))
+    if mode == "serial_ba":
+        rb = sched._safe(_mk(B))
+        ra = sched._safe(_mk(A))
+        return (ra, (rb, _sweep_digest()))
+    n, ta, (tb, where, fired) = sched.run_preempted(_mk(A), _mk(B), k)
+    ta2 = sched._safe(_mk(A))
+    tb2 = sched._safe(_mk(B))
+    return (fired, where, ta, tb, ta2, (tb2, _sweep_digest()))
+
+
+def _sweep_digest():
+    """Digest of the centres of all 240 res-2 cells and the rings of the 12 faces: touches every lazily built
+    per-triangle slot, so lingering damage to shared state shows up whatever triangle it sits in."""
+    import hashlib
+    from lib import refids
+    h = hashlib.blake2b(digest_size=8)
+    for c in refids.children(0, 2):
+        h.update(repr(forkoracle.api_result(["cell_to_lonlat", c])).encode())
+    for c in refids.children(0, 0):
+        h.update(repr(forkoracle.api_result(["cell_to_boundary", c, {"segments": 2}])).encode())
+    return h.hexdigest()
+
+
+def cold_threads(payload):
+    """Runs in a fresh fork of the pristine zygote: n real threads (1 microsecond switch interval) walk all 240 res-2
+    cells from a cold start, each from a different offset, alternating cell_to_lonlat / cell_to_boundary; then one
+    thread walks them again. Returns {call repr: set of distinct results seen}. n = 0: single-threaded reference."""
+    import sys as _sys
+    from lib import refids
+    n, variant = payload
+    cells = refids.children(0, 2)
+    calls = [["cell_to_lonlat", c] if (i + variant) % 2 == 0 else ["cell_to_boundary", c, {"segments": 2}] for i, c in enumerate(cells)]
+    seen = {}
+    lock = threading.Lock()
+
+    def walk(offset):
+        for j in range(len(calls)):
+            call = calls[(offset + j) % len(calls)]
+            r = repr(forkoracle.api_result(call))
+            with lock:
+                seen.setdefault(repr(call), set()).add(r)
+    if n == 0:
+        walk(0)
+        return {k: sorted(v) for k, v in seen.items()}
+    old = _sys.getswitchinterval()
+    _sys.setswitchinterval(1e-6)
+    try:
+        # even variants: every thread walks in the same order from the same cell (all first-ever uses collide);
+        # odd variants: staggered starts
+        ths = [threading.Thread(target=walk, args=((0 if variant % 2 == 0 else (i * len(calls)) // n) + variant,)) for i in range(n)]
+        [t.start() for t in ths]
+        [t.join() for t in ths]
+    finally:
+        _sys.setswitchinterval(old)
+    walk(0)
+    return {k: sorted(v) for k, v in seen.items()}
+
+
+def stage_cold_init(ctx):
+    """First-ever calls: in a fresh process, A is preempted at every line that only a cold run executes (lazy
+    initialisation, cache fills) by a related call B that needs the same lazily built state; afterwards both calls are
+    repeated in the same process (latent damage). Every trial runs in its own fork of a pristine zygote."""
+    import hypothesis
+    from hypothesis import HealthCheck, Phase, given, settings
+    from lib import refids
+    z = zygote()
+    cells = []
+
+    @hypothesis.seed(ctx.shard_seed)
+    @settings(max_examples=14, database=None, deadline=None, phases=[Phase.generate], suppress_health_check=list(HealthCheck))
+    @given(apigen.cell_arg(2, 29), st.integers(0, 3), st.integers(0, 5))
+    def collect(c, sib, kind):
+        cells.append((c, sib, kind))
+    collect()
+    cells = cells[-(1 if ctx.tier == "quick" else 5):]
+    budget = 160 if ctx.tier == "quick" else 4000
+    try:
+        for c, sib, kind in cells:
+            res = refids.res_of(c)
+            sibs = refids.children(refids.parent(c, res - 1), res)
+            other = sibs[sib % len(sibs)]
+            A = [["cell_to_boundary", c], ["cell_to_lonlat", c], ["cell_to_boundary", c, {"segments": 2}]][kind % 3]
+            B = [["cell_to_lonlat", other], ["cell_to_boundary", other], ["cell_to_lonlat", c]][kind // 2 % 3]
+            ks, ncold, a1, b1 = z.call("checks.c16", "cold_probe", (A, B, "profile", -1))
+            a2, b2 = z.call("checks.c16", "cold_probe", (A, B, "serial_ba", -1))
+            if not ks:
+                continue
+            step = max(1, len(ks) // max(1, budget // max(1, len(cells))))
+            for k in ks[::step]:
+                fired, where, ta, tb, ta2, tb2 = z.call("checks.c16", "cold_probe", (A, B, "trial", k))
+                case = {"A": A, "B": B, "k": k, "cold_init": True}
+                if fired:
+                    bad = None
+                    if ta not in (a1, a2):
+                        bad = ("A_differs_under_cold_preemption", ta, a1)
+                    elif tb not in (b1[0], b2[0]):
+                        bad = ("B_differs_inside_cold_A", tb, b1[0])
+                    elif ta2 not in (a1, a2):
+                        bad = ("A_differs_after_cold_interleaving", ta2, a1)
+                    elif tb2[0] not in (b1[0], b2[0]):
+                        bad = ("B_differs_after_cold_interleaving", tb2[0], b1[0])
+                    elif tb2[1] not in (b1[1], b2[1]):
+                        bad = ("later_calls_differ_after_cold_interleaving", tb2[1], b1[1])
+                    if bad:
+                        raise Violation(bad[0], case, observed=_short(bad[1]), expected=_short(bad[2]), note=f"A preempted at cold-only line {where}")
+                ctx.col.case(case, nontrivial=bool(fired), classes=("cold_init", "cold", "fired_inside" if fired else "not_fired", f"A:{A[0]}", f"B:{B[0]}"))
+            ctx.col.count("cold_only_line_events", len(ks))
+        # real threads from a cold start (probabilistic supplement; cannot fail on a correct tree)
+        ref = z.call("checks.c16", "cold_threads", (0, 0))
+        reps = 2 if ctx.tier == "quick" else 16
+        for i in range(reps):
+            nthreads = 2 + (i + ctx.shard) % 2
+            got = z.call("checks.c16", "cold_threads", (nthreads, i + ctx.shard))
+            ctx.col.bulk(1, 1, cls="cold_start_real_threads", sample={"threads": nthreads, "variant": i + ctx.shard})
+            for call, results in got.items():
+                want = ref.get(call) or z.call("checks.c16", "cold_threads", (0, 1)).get(call)
+                if want is not None and any(r not in want for r in results):
+                    raise Violation("differs_under_cold_start_real_threads", {"cold_threads": [nthreads, i + ctx.shard], "call": call},
+                                    observed=_short([r for r in results if r not in want][0]), expected=_short(want[0]),
+                                    note="real threads, 1 us switch interval, first-ever calls (probabilistic)")
+    finally:
+        z.close()
+        _zyg.clear()
+
+
 def stage_threads(ctx):
     """Real threads with a 1 microsecond switch interval (probabilistic supplement)."""
     import hypothesis
@@ -341,7 +512,8 @@ def stage_threads(ctx):
 
 
 def plan(tier):
-    s = [Stage("hyp", 16, stage_hyp, cost=6), Stage("systematic", 16, stage_systematic, cost=8), Stage("shared_slots", 16, stage_shared_slots, cost=7)]
+    s = [Stage("hyp", 16, stage_hyp, cost=6), Stage("systematic", 16, stage_systematic, cost=8), Stage("shared_slots", 16, stage_shared_slots, cost=7),
+         Stage("cold_init", 16, stage_cold_init, cost=5)]
     if tier == "thorough":
         s.append(Stage("threads", 4, stage_threads, cost=4))
     return s
